@@ -44,6 +44,23 @@ class Run:
 
 	def handler(self, fn):
 		k = len(self.trace)
+		if k > self.nticks + 20:
+			# the worker has served more ticks than it was given waits for: it does not consult its stop event between
+			# ticks (stop() could not end it).  From here on the handler returns at once and the next wait() parks.
+			if not getattr(self, "runaway", 0) and not getattr(self, "poller", False):
+				ev = getattr(self, "ev", None)
+				if ev is not None and ev.polls - ev.polls_at_last_wait >= 10:
+					# it does consult the event - by polling is_set() instead of waiting: this harness cannot park such a
+					# worker at a chosen tick, the run decides nothing
+					self.poller = True
+					ev.set()
+					return
+				self.runaway = k
+				if ev is not None:
+					ev.stop_after = ev.waits
+			if k > self.nticks + 100000:
+				raise SystemExit      # ends the clock thread: nothing else can
+			return
 		got = [[d for d, _ in ep.take_all()] for ep in self.eps]
 		self.trace.append((fn, self.vt.now, got, tuple(self.attached)))
 		# the set of clock links changes while the generator runs (transceivers power on and off)
@@ -127,6 +144,9 @@ class Run:
 def check_trace(ctx, run, T, desc, restarted = False):
 	""" The deadline recurrence of the statement, evaluated on the trace. """
 	tr = run.trace
+	if getattr(run, "runaway", 0):
+		return ("the generator served %d ticks although it was given %d waits: it does not consult its stop event on every tick "
+			"(with handlers that take a frame period or longer stop() cannot end it)" % (run.runaway, run.nticks))
 	if len(tr) != run.nticks:
 		return "handler called %d times for %d ticks" % (len(tr), run.nticks)
 	d = run.t_start + T
@@ -269,6 +289,9 @@ def run(ctx):
 			desc["links_change_while_running"] = len(rn.link_script)
 			ctx.count("runs_with_changing_links")
 		err = rn.go()
+		if getattr(rn, "poller", False):
+			ctx.inconclusive_because("the generator polls its stop event instead of waiting on it: ticks cannot be counted off by the harness")
+			break
 		if err:
 			ctx.violation("run", desc, what = "clock thread did not finish %d ticks (hung)" % nticks if err == "hung" else err)
 			continue
